@@ -198,6 +198,16 @@ class NativeSym(object):
         self._trace_on()
         return self._cost
 
+    def approximate_numerics(self):
+        import time
+        self._cpu0 = time.process_time()
+
+    def charged(self):
+        """CPU time spent since approximate_numerics(), in units of 50 microseconds, less an allowance of 100 units (5 ms) for
+        the tracer and the ordinary work - what the interpreter's charges are a lower bound of"""
+        import time
+        return max(0, int((time.process_time() - getattr(self, "_cpu0", time.process_time())) / 50e-6) - 100)
+
     def step_limit(self, extra):
         self._trace_on()
         self._limit = None if extra is None else self._cost + extra
